@@ -918,7 +918,11 @@ func (s *Server) processPublish(cl *Client, pk packets.Packet) error {
 	if !cl.Net.Inline {
 		if pki, ok := cl.State.Inflight.Get(pk.PacketID); ok {
 			if pki.FixedHeader.Type == packets.Pubrec { // [MQTT-4.3.3-10]
-				ack := s.buildAck(pk.PacketID, packets.Pubrec, 0, pk.Properties, packets.ErrPacketIdentifierInUse)
+				ackType := packets.Pubrec
+				if pk.FixedHeader.Qos == 1 {
+					ackType = packets.Puback // a QoS 1 PUBLISH is answered by PUBACK, also when its id is held by a QoS 2 flow
+				}
+				ack := s.buildAck(pk.PacketID, ackType, 0, pk.Properties, packets.ErrPacketIdentifierInUse)
 				return cl.WritePacket(ack)
 			}
 			if ok := cl.State.Inflight.Delete(pk.PacketID); ok { // [MQTT-4.3.2-5]
